@@ -501,6 +501,54 @@ def rule_M4(ctx) -> None:
                     "M().parse(b'\\x28\\x05')  # string field number 5 sent as varint")
 
 
+def rule_M4b(ctx) -> None:
+    """a length-delimited occurrence is decoded as a packed run only for a *repeated* field"""
+    from .codec import _load_paths, in_packed_loop, model
+    from ..fieldloop import FIELD_NAME
+    from ..refsrc import SPEC_PACKABLE
+
+    m = model(ctx)
+    mod = m.mod
+    load = mod.func("Message.load")
+    bad = None
+    n = 0
+    for t in ("int32", "bool", "double", "enum"):
+        paths = _load_paths(ctx, mod, t, 2)
+        for p in paths:
+            if not p.valuation.get(FIELD_NAME, False):
+                continue
+            evs = [i for i, e in enumerate(p.events) if in_packed_loop(e.loops)]
+            if not evs:
+                continue
+            n += 1
+            first = evs[0]
+            # an atom deciding that the field is repeated must have been evaluated (true) before the packed loop starts
+            established = False
+            for k, v in p.valuation.items():
+                txt = show(k) if k and k[0] != "raises" else ""
+                if v and (("default_gen" in txt and "list" in txt) or (k[0] == "call" and k[1] == N("isinstance") and k[2][1] == N("list") and k[2][0] in (N("$current"), N("$default")))):
+                    # was it decided before the packed loop? (atoms are ordered by first evaluation; the packed-branch guard
+                    # `wire_type == LEN_DELIM and proto_type in PACKED_TYPES` is folded, so position is judged by events)
+                    established = True
+            if established:
+                # the repeated-ness test must precede the packed loop in event order
+                idx = [i for i, e in enumerate(p.events) if e.kind == "call" and ("isinstance" in show(e.data) and "list" in show(e.data))]
+                if not any(("default_gen" in show(k)) for k in p.valuation) and idx and min(idx) > first:
+                    established = False
+            if not established:
+                bad = (t, p)
+    if bad:
+        t, p = bad
+        ctx.refuted("M4", "load:packed-only-for-repeated", f"singular:{t}", mod.loc(load),
+                    f"a length-delimited occurrence of a {t} field is decoded as a packed run without first establishing that the field is repeated (path {val_text(p.valuation)}): "
+                    "for a singular field the list of decoded elements is stored into the field, which then holds a value that is not of its declared type",
+                    "M().parse(b'\\x12\\x02\\x01\\x02').i == [1, 2] for a singular int32 field 2")
+    elif n == 0:
+        ctx.inconclusive("M4", "load:packed-only-for-repeated", "packed decoding path not found", mod.loc(load))
+    else:
+        ctx.proved("M4", "load:packed-only-for-repeated", mod.loc(load), f"{n} packed paths")
+
+
 # ---------------------------------------------------------------------------
 # M5 - decode loops make progress
 
